@@ -2,14 +2,14 @@
 (* C05 (and the value half of C14): every recorded call of the arithmetic layer is recomputed with the
    reference semantics ref/ZZ.tla, WW.tla, PP.tla, WordOps.tla (over lib/BigNat.tla, lib/GF2Poly.tla).
    One ndjson line per call (harness/drv_arith.c):
-     fam  "zz" | "ww" | "pp" | "word" | "qr" | "gf2" | "py"     family
+     fam  "zz" | "ww" | "pp" | "word" | "qr" | "gf2" | "pri" | "py"     family
      op   function name          ed  "def" | "safe" | "fast" (edition called by name; same specification)
      W    bits per machine word  n, m  operand lengths in words
      operands / results: arrays of 16-bit limbs (little-endian); flags and sizes: integers
      cls, alias: structural class of the case (used by the check for the violation key only)
    Lines of family "py" carry results computed by Python's integers: they validate the libraries
    themselves before they are used as the oracle. *)
-EXTENDS ZZ, WW, PP, Json, IOUtils, TLC
+EXTENDS ZZ, WW, PP, QR, PriBase, Json, IOUtils, TLC
 
 Tr == ndJsonDeserialize(IOEnv.TRACE)
 
@@ -73,6 +73,8 @@ LineZZ(r) ==
     [] r.op = "zzRedCrandMont" -> IsN(r.c, zzRedCrandMont(N(r.a), N(r.mod), r.W, r.n))
     [] r.op = "zzPowerMod" -> IsN(r.c, zzPowerMod(N(r.a), N(r.b), N(r.mod)))
     [] r.op = "zzPowerModW" -> IsN(r.ret, zzPowerModW(N(r.a), N(r.b), N(r.mod)))
+    [] r.op = "zzRandMod" -> zzRandModOk(r.ret, N(r.c), N(r.mod), FALSE, r.tape)
+    [] r.op = "zzRandNZMod" -> zzRandModOk(r.ret, N(r.c), N(r.mod), TRUE, r.tape)
     [] OTHER -> FALSE
 
 LineWW(r) ==
@@ -106,6 +108,7 @@ LineWW(r) ==
     [] r.op = "wwShHiCarry" -> <<r.c, r.ret>> = wwShHiCarry(r.a, r.shift, r.w, r.W)
     [] r.op = "wwTrimLo"  -> r.c = wwTrimLo(r.a, r.pos)
     [] r.op = "wwTrimHi"  -> r.c = wwTrimHi(r.a, r.pos)
+    [] r.op = "wwNAF"     -> r.w >= 2 /\ r.w < r.W /\ Len(r.naf) = (2 * r.n + 1) * LW(r.W) /\ wwNAFOk(r.naf, r.ret, r.a, r.w)
     [] OTHER -> FALSE
 
 IsP(x, p) == PEq(x, p)
@@ -149,6 +152,12 @@ LineWord(r) ==
     [] r.op = "wFrom" -> r.out = wFrom(r.octs, r.Wd)
     [] r.op = "wTo"   -> r.out = wTo(r.a, r.count)
     [] r.op = "wRev2" -> r.out = wRev2(r.a, r.Wd)
+    \* comparison macros of word.h: fn = rel \o kind ("Less0M"), ret an int (kind "int") or a word (limbs)
+    [] r.op = "wordCmp" -> /\ IsWordRel(r.rel) /\ r.kind \in {"int", "01", "0M"} /\ r.bits = r.W
+                           /\ "word" \o r.fn = WordCmpName(r.rel, r.kind)
+                           /\ Len(r.a) = LW(r.W) /\ Len(r.b) = LW(r.W)
+                           /\ IF r.kind = "int" THEN WordCmpOk(r.rel, r.kind, N(r.a), N(r.b), r.ret, Zero, r.W)
+                              ELSE Len(r.ret) = LW(r.W) /\ WordCmpOk(r.rel, r.kind, N(r.a), N(r.b), 0, N(r.ret), r.W)
     [] OTHER -> FALSE
 
 \* quotient rings created by zmCreate* : elements travel as octet strings of length no (qrFrom / qrTo),
@@ -169,6 +178,18 @@ LineQR(r) ==
     [] r.op = "qrUnity" -> IsO(r.out, Mod(One, md))
     \* qrFrom accepts exactly the canonical representatives
     [] r.op = "qrFrom" -> Flag(r.ret, Less(O(r.a), md))
+    \* alias macros of qr.h, zm.h, gfp.h (ref/QR.tla); ed = edition of the callee the macro was bound to
+    [] r.op = "qrAddUnity" -> IsO(r.out, qrAddUnity(O(r.a), md))
+    [] r.op = "qrSubUnity" -> IsO(r.out, qrSubUnity(O(r.a), md))
+    [] r.op = "qrIsUnity" -> Flag(r.ret, qrIsUnity(O(r.a), md))
+    [] r.op = "qrCmp" -> IsStrat(r.strat) /\ Sign(r.ret, qrCmp(O(r.a), O(r.b), md, r.strat, r.W))
+    [] r.op = "zmAdd" -> IsO(r.out, zmAdd(O(r.a), O(r.b), md))
+    [] r.op = "zmSub" -> IsO(r.out, zmSub(O(r.a), O(r.b), md))
+    [] r.op = "zmNeg" -> IsO(r.out, zmNeg(O(r.a), md))
+    [] r.op = "zmIsIn" -> Flag(r.ret, zmIsIn(N(r.aw), md))
+    [] r.op = "zmIsValid" -> Flag(r.ret, zmIsValid(N(r.top)))
+    [] r.op = "gfpDouble" -> IsO(r.out, gfpDouble(O(r.a), md))
+    [] r.op = "gfpHalf" -> IsOdd(md) /\ gfpHalfOk(O(r.out), O(r.a), md)
     [] OTHER -> FALSE
 
 \* fields GF(2^m) = GF(2)[x]/(x^m + x^k [+ x^l + x^l1] + 1) created by gf2Create; elements travel as octet strings
@@ -182,6 +203,21 @@ LineGF2(r) ==
     [] r.op = "qrSqr" -> IsG(r.out, PMulMod(GP(r.a), GP(r.a), f), r)
     [] r.op = "qrInv" -> IsG(r.out, PInvMod(GP(r.a), f), r)
     [] r.op = "qrDiv" -> IsG(r.out, PMulMod(GP(r.b), PInvMod(GP(r.a), f), f), r)
+    \* alias macros of gf2.h (ref/QR.tla)
+    [] r.op = "gf2Add" -> IsG(r.out, gf2Add(GP(r.a), GP(r.b)), r)
+    [] r.op = "gf2Add2" -> IsG(r.out, gf2Add(GP(r.a), GP(r.b)), r)
+    [] r.op = "gf2Sub" -> IsG(r.out, gf2Sub(GP(r.a), GP(r.b)), r)
+    [] r.op = "gf2Sub2" -> IsG(r.out, gf2Sub(GP(r.b), GP(r.a)), r)
+    [] r.op = "gf2Neg" -> IsG(r.out, gf2Neg(GP(r.a)), r)
+    [] r.op = "gf2Deg" -> r.ret = gf2Deg(r.m)
+    [] r.op = "gf2IsIn" -> Flag(r.ret, gf2IsIn(r.aw, r.m))
+    [] OTHER -> FALSE
+
+\* factor base and prime extension (pri.h, ref/PriBase.tla over ref/Pri.tla)
+LinePri(r) ==
+  CASE r.op = "priBaseMod" -> priBaseModOk(r.mods, N(r.a), r.count, LW(r.W))
+    [] r.op = "priExtendPrime" -> priExtendOk(r.ret, N(r.p), r.l, N(r.q), One, r.mustfind = 1)
+    [] r.op = "priExtendPrime2" -> priExtendOk(r.ret, N(r.p), r.l, N(r.q), N(r.a), r.mustfind = 1)
     [] OTHER -> FALSE
 
 \* self-validation of the libraries against results computed by Python's integers / bit operations
@@ -206,6 +242,9 @@ LinePy(r) ==
     [] r.op = "pinv"   -> IsP(r.c, PInvMod(r.a, r.b))
     [] r.op = "pirred" -> Flag(r.ret, PIsIrred(r.a))
     [] r.op = "pminpoly" -> IsP(r.c, PMinPolySeq(r.s))
+    \* window NAF computed by the textbook algorithm in Python and encoded by the rules of ww.h; "good" = 0: a sequence
+    \* that breaks one rule (value, sparsity, digit set, missing / superfluous replacement of the suffix, length)
+    [] r.op = "naf"    -> wwNAFOk(r.naf, r.l, r.a, r.w) = (r.good = 1)
     [] OTHER -> FALSE
 
 \* a call that did not return ("hang") or stopped on an assertion ("abort") has no result at all
@@ -219,6 +258,7 @@ LineOk(r) ==
     [] r.fam = "word" -> LineWord(r)
     [] r.fam = "qr"   -> LineQR(r)
     [] r.fam = "gf2"  -> LineGF2(r)
+    [] r.fam = "pri"  -> LinePri(r)
     [] r.fam = "py"   -> LinePy(r)
     [] OTHER -> FALSE                      \* unknown family / op = rejected, never silently ok
 
